@@ -1,4 +1,6 @@
 import TracklibVerif.Model.Filter
+import TracklibVerif.Model.FilterExt
+import TracklibVerif.Model.FilterColl
 import TracklibVerif.Drv.Util
 /-! Driver handler for C15 (kernel smoothing). `<sc>` is the scalar: `r` (Rat, tokens `p/q`) or
 `f` (Float, IEEE bit patterns); NaN is `nan` in signals.
@@ -44,7 +46,16 @@ Commands:
                                            `filter_seq` called n times on the same track with the same kernel object
                                            → the replies of `seq` after every call, separated by ` # ` (stops at a failure)
   session <sc> <n> { <dim> <names> <signals ;> <m> <kspec of m tokens> }*n
-                                           → n replies of `seq` separated by ` # ` -/
+                                           → n replies of `seq` separated by ` # `
+  coll <sc> <n> { <names> <signals ;> }*n <kspec>
+                                           `TrackCollection.smooth` on n tracks (`<kspec>` describes `GaussianKernel(constraint)`)
+                                           → (ok | err:<kind>@<position of the failing track>) # <names> <signals ;> # … (n tracks) # <globals>
+  seqx r <dim names ,> <names> <signals ;> <weights>
+                                           `filter_seq(track, weights, dim)` for a weight list over Python's numbers (`filterSeqListX`)
+                                           → ok <weight list after the call> <names> <signals ;> | err:<kind>
+  execx r <signal> <kspec>                 `Filter.execute` over Python's numbers (`Model/FilterExt.lean`, scalar `Ext Rat`): the signal and
+                                           the weights of a `list` may hold `nan`, `inf`, `-inf`; any total of the weights
+                                           → ok <weight list after the call | none> <output signal> | err:<kind> -/
 namespace TV.Drv.C15
 open TV.Filter TV.Drv
 
@@ -279,6 +290,29 @@ def handleSc (sc : Sc α) (cmd : String) (args : List String) : String :=
     match kspec? sc ks, track? sc names sigs with
     | some (KArg.obj false _ f sup S), some t => showCall sc (smooth Globals.initial t f sup S)
     | _, _ => "bad-request"
+  | "coll", n :: rest =>
+    match n.toNat? with
+    | none => "bad-request"
+    | some n =>
+      if rest.length < 2 * n then "bad-request"
+      else
+        let rec tracks? : Nat → List String → Option (List (Sigs α))
+          | 0, _ => some []
+          | m + 1, names :: sigs :: more => do
+            let t ← track? sc names sigs
+            let ts ← tracks? m more
+            pure (t :: ts)
+          | _, _ => none
+        match tracks? n (rest.take (2 * n)), kspec? sc (rest.drop (2 * n)) with
+        | some ts, some (KArg.obj false _ f sup S) =>
+          match collectionSmooth f sup S Globals.initial ts with
+          | none => "bad-request"
+          | some (ts', err, g) =>
+            let st := match err with
+              | none => "ok"
+              | some (i, e) => s!"{showErr e}@{i}"
+            joinWith " # " ([st] ++ ts'.map (showTrack sc) ++ [showGlobals g])
+        | _, _ => "bad-request"
   | "session", n :: rest =>
     match n.toNat? with
     | none => "bad-request"
@@ -289,7 +323,60 @@ def handleSc (sc : Sc α) (cmd : String) (args : List String) : String :=
   | _, _ => "bad-request"
 end
 
+def ext? (s : String) : Option (Ext Rat) :=
+  if s == "nan" then some .nan else if s == "inf" then some .pinf else if s == "-inf" then some .ninf else (rat? s).map .fin
+
+def showExt : Ext Rat → String
+  | .fin a => showRat a
+  | .pinf => "inf"
+  | .ninf => "-inf"
+  | .nan => "nan"
+
+def handleX (args : List String) : String :=
+  match args with
+  | sig :: "list" :: [ws] =>
+    match (splitTok sig ',').mapM ext?, (splitTok ws ',').mapM ext? with
+    | some v, some k =>
+      match executeListX v k with
+      | .ok (k', out) => s!"ok {showList showExt k'} {showList showExt out}"
+      | .error e => showErr e
+    | _, _ => "bad-request"
+  | sig :: ks =>
+    match (splitTok sig ',').mapM ext?, kspec? scRat ks with
+    | some v, some (KArg.obj dirac b f sup S) =>
+      match prepare (KArg.obj dirac b f sup S) with
+      | .ok (_, w, boundary, _) =>
+        match executeObjX v w boundary with
+        | .ok out => s!"ok none {showList showExt out}"
+        | .error e => showErr e
+      | .error e => showErr e
+    | _, _ => "bad-request"
+  | _ => "bad-request"
+
+def sigX? (s : String) : Option (List (Option (Ext Rat))) :=
+  (splitTok s ',').mapM (fun t => (ext? t).map toOpt)
+
+def showSigX (l : List (Option (Ext Rat))) : String := showList (fun o => showExt (ofOpt o)) l
+
+def handleSeqX (args : List String) : String :=
+  match args with
+  | [dims, names, sigs, ws] =>
+    let ns := splitTok names ','
+    match (splitTok sigs ';').mapM sigX?, (splitTok ws ',').mapM ext? with
+    | some ss, some k =>
+      if ns.length ≠ ss.length then "bad-request"
+      else
+        match filterSeqListX (ns.zip ss) k (splitTok dims ',') with
+        | .ok (k', t') => s!"ok {showList showExt k'} {joinWith "," (t'.map (·.1))} {joinWith ";" (t'.map (fun p => showSigX p.2))}"
+        | .error e => showErr e
+    | _, _ => "bad-request"
+  | _ => "bad-request"
+
 def handle (cmd : String) (args : List String) : String :=
+  match cmd, args with
+  | "execx", "r" :: rest => handleX rest
+  | "seqx", "r" :: rest => handleSeqX rest
+  | _, _ =>
   match args with
   | "r" :: rest => handleSc scRat cmd rest
   | "f" :: rest => handleSc scFloat cmd rest
